@@ -153,8 +153,9 @@ def main(pid, module, conditions, tier, explain, finding_of=None, stubs=(), outs
                     problems.append(f"{r['fn']}: counterexample {args} falls into known finding {fid}, which the harness should have excluded")
                     continue
                 key = hashlib.sha1(f"{fn}({args})".encode()).hexdigest()[:12]
-                os.makedirs(os.path.join(VERIF, "replays"), exist_ok=True)
-                rp = os.path.join(VERIF, "replays", f"{pid}-{key}.json")
+                rdir = os.environ.get("VERIF_REPLAY_DIR") or os.path.join(VERIF, "replays")
+                os.makedirs(rdir, exist_ok=True)
+                rp = os.path.join(rdir, f"{pid}-{key}.json")
                 json.dump({"module": module, "call": f"{fn}({args})"}, open(rp, "w"))
                 violations.append((r["fn"], f"{fn}({args}) returns False on the real code", rp))
             else:
